@@ -326,7 +326,7 @@ func TestC12(t *testing.T) {
 		}
 	}
 	// (i) differential histories
-	kit.SetRapid(kit.N(640, 12000))
+	kit.SetRapid(kit.N(640, 6000))
 	rapid.Check(t, kit.Prop("C12", func(t *rapid.T) {
 		b := rapid.SampledFrom(kit.AllBackends).Draw(t, "backend")
 		lru := rapid.SampledFrom([]int{2, 3, 8, 64}).Draw(t, "lru")
